@@ -27,6 +27,7 @@ def apply(mid, d):
     pth = pathlib.Path(mid)
     if not pth.exists(): pth = V / "seeded" / mid
     if pth.is_dir(): pth = pth / "patch.diff"
+    pth = pth.resolve()
     r = subprocess.run(["patch", "-p1", "-s", "-d", str(d), "-i", str(pth)], capture_output=True, text=True)
     if r.returncode: raise SystemExit("PATCH-FAIL %s: %s" % (mid, r.stdout + r.stderr))
     return str(pth)
